@@ -240,3 +240,12 @@ Theorem C09_step_ni : forall c1 c2 cn e, cfg_low_eq c1 c2 ->
     List.map redact_out o1 = List.map redact_out o2.
 Proof. exact feed_ni. Qed.
 Print Assumptions C09_step_ni.
+
+(* history-level non-interference for mechanisms that keep state: the two runs use
+   pairwise low-equivalent mechanisms at every step *)
+Theorem C09_stateful_session_log_ni : forall strip_raw pretty_rest c1 c2 s1 s2 cn,
+  cfg_low_eq c1 c2 -> steps_low_eq s1 s2 ->
+  session_log_stateful strip_raw pretty_rest c1 cn s1 =
+  session_log_stateful strip_raw pretty_rest c2 cn s2.
+Proof. exact session_log_stateful_ni. Qed.
+Print Assumptions C09_stateful_session_log_ni.
